@@ -862,11 +862,30 @@ func (g *c22Gen) Prelude() []c22Cmd {
 		return int64(c.Index)
 	}
 	org := add(c22CreateOrg(g.pick("porg", c22OrgNames), "", c22BaseNano))
-	team := add(c22CreateTeam(org, g.pick("pteam", c22TeamNames), "", c22BaseNano))
+	teamName := g.pick("pteam", c22TeamNames)
+	team := add(c22CreateTeam(org, teamName, "", c22BaseNano))
 	role := add(c22CreateRole(team, "db1", "read", c22BaseNano))
 	add(c22CreateMPerm(role, "cpu", "read", c22BaseNano))
-	tok := add(c22CreateToken(c22Token(g.pick("ptok", c22TokenNames), "h1", "p1", "read", c22BaseNano)))
+	tokName := g.pick("ptok", c22TokenNames)
+	tok := add(c22CreateToken(c22Token(tokName, "h1", "p1", "read", c22BaseNano)))
 	add(c22AddMember(tok, team, c22BaseNano))
+	if rapid.Bool().Draw(g.t, "pwide") {
+		// wide prelude: a token in exactly two teams and a team with two member
+		// tokens, so that partial cascades (delete ONE of a token's teams, remove
+		// ONE of a team's members and then delete the team) are reached often.
+		other := func(pool []string, not string) string {
+			for _, n := range pool {
+				if n != not {
+					return n
+				}
+			}
+			return not + "2"
+		}
+		team2 := add(c22CreateTeam(org, other(c22TeamNames, teamName), "", c22BaseNano))
+		tok2 := add(c22CreateToken(c22Token(other(c22TokenNames, tokName), "h2", "p2", "read", c22BaseNano)))
+		add(c22AddMember(tok, team2, c22BaseNano))
+		add(c22AddMember(tok2, team, c22BaseNano))
+	}
 	return out
 }
 
